@@ -209,7 +209,11 @@ theorem stepNs_upd {w : World} {n : Nat} {s : NS} (hs : w.nss[n]? = some s) (op 
         cases h : s.removeTaxon t with
         | error e => intro B _; exact upd_refl _ _
         | ok s' => intro B _; exact upd_setNs hs (.single (.rm t rfl h))
-  | sort n' rev => intro B _; exact upd_setNs hs (.single (.perm _ (sortBy_perm _ _ _)))
+  | sort n' rev =>
+    simp only [stepNs]
+    by_cases hc : sortRefused w.lab s.taxa = true
+    · rw [if_pos hc]; intro B _; exact upd_refl _ _
+    · rw [if_neg hc]; intro B _; exact upd_setNs hs (.single (.perm _ (sortBy_perm _ _ _)))
   | rev n' => intro B _; exact upd_setNs hs (.single (.perm _ (List.reverse_perm _)))
   | clear n' => intro B _; exact upd_setNs hs (.single (.clear rfl))
   | setMut n' b => intro B _; exact upd_setNs hs (.single (.setMut b rfl))
@@ -248,7 +252,16 @@ theorem stepNs_upd {w : World} {n : Nat} {s : NS} (hs : w.nss[n]? = some s) (op 
     intro B _; exact upd_setNs hs (key B)
   | bits n' m => intro B _; exact upd_refl _ _
   | isIn n' t => intro B _; exact upd_refl _ _
-  | sortk n' k rev => intro B _; exact upd_setNs hs (.single (.perm _ (sortWith_perm _ _ _ _ _)))
+  | sortk n' k rev =>
+    simp only [stepNs]
+    by_cases hc : k = .label ∧ sortRefused w.lab s.taxa = true
+    · rw [if_pos hc]; intro B _; exact upd_refl _ _
+    · rw [if_neg hc]; intro B _; exact upd_setNs hs (.single (.perm _ (sortWith_perm _ _ _ _ _)))
+  | sortx n' order =>
+    simp only [stepNs]
+    by_cases hc : sortRefused w.lab s.taxa = true ∧ order.isPerm s.taxa = true
+    · rw [if_pos hc]; intro B _; exact upd_setNs hs (.single (.perm _ (List.isPerm_iff.1 hc.2)))
+    · rw [if_neg hc]; intro B _; exact upd_refl _ _
   | btli n' m idx => intro B _; exact upd_refl _ _
   | tbmKw n' taxa labels c first =>
     simp only [stepNs]
